@@ -15,6 +15,11 @@ Proof. vm_compute. reflexivity. Qed.
 Lemma classified_findings_ok : classified_findings = ["canon-map-colliding-keys"%string].
 Proof. vm_compute. reflexivity. Qed.
 
+Lemma first_culprit_fixed_ok : first_culprit_fixed = true.
+Proof. vm_compute. reflexivity. Qed.
+Lemma message_only_sites_ok : length message_only_sites = 5%nat.
+Proof. vm_compute. reflexivity. Qed.
+
 (* ====================================================================================== *)
 (* 2. dedup *)
 Lemma existsb_eqb_in x l : existsb (String.eqb x) l = true <-> In x l.
